@@ -274,12 +274,38 @@ GrainB(c) ==
            << [op |-> "qtable", h |-> 1, dim |-> 3, props |-> <<PG(1, 2)>>, checks |-> [i \in 1..20 |-> [k |-> "eq", at |-> i - 1, col |-> 4]],
                rows |-> << <<x * Km, 500 * Km, HM - 100 * Km, 100 * Km, 0>> >>] >>))
 
+(*************************** uniform composition: the listed labels get their fractions, inside the model's own range **********)
+COps4 == {"replace", "replace defined only", "add", "subtract"}
+CompCase == [type : SixTypes, op : COps4]
+CompB(c) ==
+  LET lo == 20  hi == 70                                  \* km: depth range (area features, plume) or distance range (slab, fault)
+      line == c.type \in {"subducting plate", "fault"}
+      cm == CUniformF(<<1, 3>>, <<Dec(25, -2), Dec(75, -2)>>, c.op)
+            @@ (IF line THEN ((IF c.type = "fault" THEN "min distance fault center" ELSE "min distance slab top") :> lo * Km)
+                             @@ ((IF c.type = "fault" THEN "max distance fault center" ELSE "max distance slab top") :> hi * Km)
+                ELSE ("min depth" :> lo * Km) @@ ("max depth" :> hi * Km))
+      doc == WorldOf(<<CASE c.type \in AreaTypes -> Area(c.type, "f", Rect1000, 0, 200 * Km, <<>>, <<cm>>, <<>>, <<>>)
+                         [] c.type = "plume" -> Plume("f", <<<<500 * Km, 500 * Km>>, <<500 * Km, 500 * Km>>>>, <<50 * Km, 300 * Km>>, <<100 * Km, 100 * Km>>, <<0, 0>>, <<0, 0>>,
+                                                     10 * Km, 400 * Km, <<>>, <<cm>>, <<>>, <<>>)
+                         [] OTHER -> Line(c.type, "f", <<<<500 * Km, -500 * Km>>, <<500 * Km, 1500 * Km>>>>, <<1500 * Km, 500 * Km>>, 0, 1000 * Km,
+                                          <<Segment(400 * Km, <<200 * Km>>, <<0>>, <<90>>)>>, <<>>, <<cm>>, <<>>, <<>>)>>)
+      sgn == IF c.op = "subtract" THEN -1 ELSE 1
+      (* rows <<x km, depth km, in the model's range?>> *)
+      pts == IF ~line THEN << <<500, 30, TRUE>>, <<530, 60, TRUE>>, <<500, 15, FALSE>>, <<500, 90, FALSE>> >>
+             ELSE IF c.type = "fault" THEN << <<470, 100, TRUE>>, <<540, 100, TRUE>>, <<490, 100, FALSE>>, <<585, 100, FALSE>> >>
+             ELSE << <<470, 100, TRUE>>, <<440, 100, TRUE>>, <<490, 100, FALSE>>, <<415, 100, FALSE>> >>
+  IN B(<<"composition-uniform", c>>, <<"composition-uniform", c.type, c.op>>, doc,
+       << [op |-> "qtable", h |-> 1, dim |-> 3, props |-> <<PC(1), PC(3), PC(2)>>,
+           checks |-> <<[k |-> "eq", at |-> 0, col |-> 4], [k |-> "eq", at |-> 1, col |-> 5], [k |-> "eq", at |-> 2, col |-> 6]>>,
+           rows |-> [i \in 1..4 |-> <<pts[i][1] * Km, 500 * Km, HM - pts[i][2] * Km, pts[i][2] * Km,
+                                       IF pts[i][3] THEN Dec(sgn * 25, -2) ELSE Dec(0, 0), IF pts[i][3] THEN Dec(sgn * 75, -2) ELSE Dec(0, 0), Dec(0, 0)>>]] >>)
+
 VARIABLE case
-Cases == ({"grains-uniform"} \X GrainCase) \cup    ({"uniform-range"} \X URangeCase) \cup ({"smooth"} \X SmoothCase) \cup    ({"linear"} \X LinearCase) \cup ({"linear-varying"} \X LinVarCase) \cup ({"uniform"} \X UniformCase) \cup ({"adiabatic"} \X AdCase) \cup ({"chapman"} \X ChapCase)
+Cases == ({"composition-uniform"} \X CompCase) \cup ({"grains-uniform"} \X GrainCase) \cup    ({"uniform-range"} \X URangeCase) \cup ({"smooth"} \X SmoothCase) \cup    ({"linear"} \X LinearCase) \cup ({"linear-varying"} \X LinVarCase) \cup ({"uniform"} \X UniformCase) \cup ({"adiabatic"} \X AdCase) \cup ({"chapman"} \X ChapCase)
        \cup ({"cooling"} \X CoolCase) \cup ({"gaussian"} \X GaussCase) \cup ({"line-linear"} \X LineLinCase)
 Init == case \in Cases
 Next == UNCHANGED case
-Behaviour == CASE case[1] = "grains-uniform" -> GrainB(case[2]) [] case[1] = "linear" -> LinearB(case[2]) [] case[1] = "linear-varying" -> LinVarB(case[2]) [] case[1] = "uniform" -> UniformB(case[2]) [] case[1] = "adiabatic" -> AdB(case[2])
+Behaviour == CASE case[1] = "composition-uniform" -> CompB(case[2]) [] case[1] = "grains-uniform" -> GrainB(case[2]) [] case[1] = "linear" -> LinearB(case[2]) [] case[1] = "linear-varying" -> LinVarB(case[2]) [] case[1] = "uniform" -> UniformB(case[2]) [] case[1] = "adiabatic" -> AdB(case[2])
                [] case[1] = "chapman" -> ChapB(case[2]) [] case[1] = "cooling" -> CoolB(case[2]) [] case[1] = "gaussian" -> GaussB(case[2])
                [] case[1] = "line-linear" -> LineLinB(case[2]) [] case[1] = "smooth" -> SmoothB(case[2]) [] case[1] = "uniform-range" -> URangeB(case[2])
 Emit == PrintT(<<"B", ToJson(Behaviour)>>)
